@@ -345,6 +345,34 @@ def validate_trace(name, module, constants, trace_path, invariants=(), timeout=9
     return res, rejected
 
 
+def validate_events(name, module, trace_path, constants=None, chunk=20000, workers=12, timeout=1500, xmx="8g"):
+    """Stateless parallel trace validation: the trace spec has one initial state per recorded event and one
+    Check step that judges it from the TLA+ definitions, printing <<"REJECT", index, "reason">> for every event
+    the specification does not allow.  Returns (list of TLC results, list of (event, reason), number of events)."""
+    with open(trace_path) as f:
+        lines = [l for l in f if l.strip()]
+    results, rejects = [], []
+    for ci in range(0, len(lines), chunk):
+        part = lines[ci:ci + chunk]
+        pth = "%s.part%d" % (trace_path, ci // chunk)
+        with open(pth, "w") as f:
+            f.writelines(part)
+        res = run_tlc("%s_%d" % (name, ci // chunk), module, dict(constants=constants or {}), workers=workers, timeout=timeout,
+                      xmx=xmx, env_extra={"TRACE": pth})
+        tlc_ok_or_die(res)
+        if res["distinct"] != 2 * len(part):
+            raise ToolError("trace validation %s judged %s states for %d events" % (name, res["distinct"], len(part)))
+        with open(res["out"], errors="replace") as f:
+            for line in f:
+                m = re.match(r'<<"REJECT", (\d+), "(.*)">>', line)
+                if m:
+                    rejects.append((json.loads(part[int(m.group(1)) - 1]), m.group(2)))
+        os.remove(res["out"])
+        os.remove(pth)
+        results.append(res)
+    return results, rejects, len(lines)
+
+
 def simple_check(pid, tier, seed, t0, runs, rule, assume, level="model_checking", nontrivial=None, extra_cov=None,
                  extra_mismatches=()):
     """Generic pipeline: each run = dict(name, module, constants, invariants, constraints, simulate, depth, workers).
